@@ -1,13 +1,13 @@
 #!/bin/bash
-# usage: vx/trymut.sh <patch.diff> <Cxx>...   applies the change to /repo, runs the checks, undoes it
+# usage: vx/trymut.sh <patch.diff> <Cxx>...   runs the checks against a scratch copy of /repo/src with the change applied
 set -u
-P=$1; shift
+P=$(readlink -f "$1"); shift
+T=$(mktemp -d /tmp/verif-mut-XXXXXX)
+cp -r /repo/src $T/src
+( cd $T && patch -p1 -s < "$P" ) || { echo "patch does not apply"; rm -rf $T; exit 3; }
 cd /verif
-git -C /repo apply "$P" || { echo "patch does not apply"; exit 3; }
 for c in "$@"; do
-  VERIF_OUT=/tmp/verif-mut-out ./check $c 2>&1 | grep -v "^\s*$" | head -20
+  VERIF_REPO=$T VERIF_OUT=$T/out ./check $c 2>&1 | grep -v "^\s*$" | head -24
   echo "  -> $c exit ${PIPESTATUS[0]}"
 done
-git -C /repo checkout -- .
-rm -rf /tmp/verif-mut-out
-git -C /repo status --short | head -3
+rm -rf $T
